@@ -98,10 +98,10 @@ theorem block_fresh_scope (P : Platform) (f : Nat) (ss : List Stmt) (env : Nat) 
   rw [evalS]; simp [guardErr, ER.seq, Res.bind, h0, Store.newEnv]
 
 /-- a `ফর` statement gets one fresh scope shared by initializer, condition, increment and body -/
-theorem for_scope_shared (P : Platform) (f : Nat) (c : Expr) (inc : Option Expr) (b : Stmt) (env : Nat) (repl : Bool) (σ : Store)
+theorem for_scope_shared (P : Platform) (f : Nat) (c : Option Expr) (inc : Option Expr) (b : Stmt) (env : Nat) (repl : Bool) (σ : Store)
     (h0 : σ.hadError = false) :
     evalS P (f + 1) (.forS none c inc b) env repl σ =
-      forLoop P f c inc b σ.envs.length repl { σ with envs := σ.envs ++ [⟨[], some env⟩] } := by
+      forLoop P f (forCond c) inc b σ.envs.length repl { σ with envs := σ.envs ++ [⟨[], some env⟩] } := by
   rw [evalS]; simp [guardErr, ER.seq, Res.bind, h0, Store.newEnv]
 
 /-- user code runs in a child of the frame that holds the built-ins -/
